@@ -264,16 +264,17 @@ func (b bufSink) OpenSink() (io.WriteCloser, error) { return b.sink, nil }
 // ---------------------------------------------------------------- one run
 
 type aggRun struct {
-	run     int
-	kind    string // "phout" | "jsonlines"
-	ids     bool
-	k       int
-	per     []int
-	q       int
-	flushMs int
-	delayUs int
-	via     string // "direct" | "engine"
-	mode    string // direct runs: "normal" | "late" | "burst"
+	run       int
+	kind      string // "phout" | "jsonlines"
+	ids       bool
+	k         int
+	per       []int
+	q         int
+	flushMs   int
+	delayUs   int
+	via       string // "direct" | "engine"
+	mode      string // direct runs: "normal" | "late" | "burst"
+	failAfter int    // via "provfail": the provider fails when that many ammo were acquired
 }
 
 // runAggregator captures the aggregator's own Run result (the engine may or may not forward it).
@@ -443,11 +444,27 @@ func runDirect(cfg aggRun, w *vt.Writer, seed int64) {
 // ---------------------------------------------------------------- engine runs (mock provider/gun, real aggregator)
 
 type mockProvider struct {
-	mu   sync.Mutex
-	left int
+	mu        sync.Mutex
+	left      int
+	failAfter int           // > 0: Run fails once that many ammo were acquired (C05 plan "prov-mid-run")
+	failNow   chan struct{} // closed at that moment
+	acquired  int
 }
 
-func (p *mockProvider) Run(ctx context.Context, _ core.ProviderDeps) error { <-ctx.Done(); return nil }
+var errProviderMidRun = errors.New("ammo source broke mid-run")
+
+func (p *mockProvider) Run(ctx context.Context, _ core.ProviderDeps) error {
+	if p.failAfter > 0 {
+		select {
+		case <-p.failNow:
+			return errProviderMidRun
+		case <-ctx.Done():
+			return nil
+		}
+	}
+	<-ctx.Done()
+	return nil
+}
 func (p *mockProvider) Acquire() (core.Ammo, bool) {
 	p.mu.Lock()
 	defer p.mu.Unlock()
@@ -455,6 +472,10 @@ func (p *mockProvider) Acquire() (core.Ammo, bool) {
 		return nil, false
 	}
 	p.left--
+	p.acquired++
+	if p.failAfter > 0 && p.acquired == p.failAfter {
+		close(p.failNow)
+	}
 	return p.left, true
 }
 func (p *mockProvider) Release(core.Ammo) {}
@@ -477,13 +498,32 @@ func (g *mockGun) Bind(a core.Aggregator, deps core.GunDeps) error {
 func (g *mockGun) Shoot(core.Ammo) {
 	g.i++
 	abs, s := g.cfg.sample(g.r, g.g, g.i)
-	if g.cfg.via == "cancel" {
+	if g.cfg.via != "engine" || g.cfg.schedEnd() {
 		time.Sleep(time.Duration(20+g.r.Intn(180)) * time.Microsecond) // the shot
 	}
 	g.w.Emit(map[string]interface{}{"ev": "Report", "run": g.cfg.run, "g": g.g, "i": g.i, "s": abs})
 	g.aggr.Report(s)
 	atomic.AddInt64(g.returned, 1)
+	// the call has returned: the sample is in the queue (or counted as dropped) from here on
+	g.w.Emit(map[string]interface{}{"ev": "ReportRet", "run": g.cfg.run, "g": g.g, "i": g.i, "s": abs})
 }
+
+// engine hooks (core/engine/verif_on.go): the pool life-cycle events of the run, written by the await
+// goroutine itself, merged into the same trace as the report / line events (pool id = "r<run>")
+var hookWriter *vt.Writer
+
+func hookSink(pool string, seq int64, ev string, n int, err error) {
+	run, perr := strconv.Atoi(strings.TrimPrefix(pool, "r"))
+	if perr != nil || hookWriter == nil {
+		return
+	}
+	hookWriter.Emit(map[string]interface{}{"ev": "Hook", "run": run, "seq": vt.Small(seq), "hook": ev, "n": n,
+		"err": fmt.Sprint(err), "ooa": engine.VerifIsOutOfAmmo(err)})
+}
+
+// engine runs end either because the ammo runs out or (every other run) because the shared RPS schedule
+// is exhausted while ammo is left (C05 shapes out-of-ammo / sched-end)
+func (cfg aggRun) schedEnd() bool { return cfg.via == "engine" && cfg.run%2 == 0 }
 
 func runEngine(cfg aggRun, w *vt.Writer, seed int64) {
 	w.Emit(map[string]interface{}{"ev": "Run", "run": cfg.run, "kind": cfg.kind, "ids": cfg.ids, "k": cfg.k,
@@ -496,12 +536,22 @@ func runEngine(cfg aggRun, w *vt.Writer, seed int64) {
 	}
 	var gunSeq, returned int64
 	var mu sync.Mutex
-	if cfg.via == "cancel" {
-		total = 2000 // the run is stopped by the cancel, not by the end of ammo
+	if cfg.via != "engine" {
+		total = 2000 // the run is stopped by the cancel / the provider failure, not by the end of ammo
+	}
+	prov := &mockProvider{left: total}
+	newSched := func() (core.Schedule, error) { return schedule.NewUnlimited(time.Hour), nil }
+	if cfg.schedEnd() {
+		tokens := int64(total)
+		prov.left = total + cfg.k + 3
+		newSched = func() (core.Schedule, error) { return schedule.NewOnce(tokens), nil }
+	}
+	if cfg.via == "provfail" {
+		prov.failAfter, prov.failNow = cfg.failAfter, make(chan struct{})
 	}
 	pool := engine.InstancePoolConfig{
-		ID:         "p",
-		Provider:   &mockProvider{left: total},
+		ID:         fmt.Sprintf("r%d", cfg.run),
+		Provider:   prov,
 		Aggregator: rc,
 		NewGun: func() (core.Gun, error) {
 			mu.Lock()
@@ -511,7 +561,7 @@ func runEngine(cfg aggRun, w *vt.Writer, seed int64) {
 			return &mockGun{cfg: cfg, w: w, r: rand.New(rand.NewSource(seed*1000 + n)), returned: &returned}, nil
 		},
 		RPSPerInstance:  false,
-		NewRPSSchedule:  func() (core.Schedule, error) { return schedule.NewUnlimited(time.Hour), nil },
+		NewRPSSchedule:  newSched,
 		StartupSchedule: schedule.NewOnce(int64(cfg.k)),
 	}
 	m := engine.Metrics{Request: &monitoring.Counter{}, Response: &monitoring.Counter{},
@@ -530,13 +580,17 @@ func runEngine(cfg aggRun, w *vt.Writer, seed int64) {
 		before := atomic.LoadInt64(&returned) // read BEFORE the cancel: all of them were made before it
 		w.Emit(map[string]interface{}{"ev": "Cancel", "run": cfg.run, "returned_before": vt.Small(before)})
 		cancel()
+		// from here on the run context IS done: an instance reports at most the shot it has in flight
+		w.Emit(map[string]interface{}{"ev": "Cancelled", "run": cfg.run})
 	}
 	select {
 	case engErr = <-res:
 	case <-time.After(60 * time.Second):
 		timeout = true
 	}
-	if cfg.via == "cancel" && !timeout {
+	if !timeout {
+		// Engine.Wait(): all started tasks have finished (also after a successful Run: onWaitDone is
+		// called right after awaitErr is closed)
 		waited := make(chan struct{})
 		go func() { e.Wait(); close(waited) }()
 		select {
@@ -577,18 +631,23 @@ func aggMain(args []string) {
 	engRuns := fs.Int("engine", 20, "engine runs that end by themselves")
 	cancelRuns := fs.Int("cancel", 20, "engine runs cancelled from outside at a seeded instant")
 	stressRuns := fs.Int("dropstress", 4, "jsonlines runs with thousands of concurrent drops")
+	provRuns := fs.Int("provfail", 0, "engine runs whose provider fails mid-run")
 	par := fs.Int("par", 4, "runs in flight")
 	fs.Parse(args)
 	seed := aggSeed()
 	w := vt.Create(*out)
 	defer w.Close()
+	hookWriter = w
+	engine.VerifSink = hookSink
 	r := rand.New(rand.NewSource(seed))
 	qs := []int{1, 1, 2, 3, 4, 8, 16, 64}
 	flushes := []int{1, 1, 2, 5, 20, 100, 1000}
 	var cfgs []aggRun
-	for n := 0; n < *runs+*engRuns+*cancelRuns+*stressRuns; n++ {
+	for n := 0; n < *runs+*engRuns+*cancelRuns+*stressRuns+*provRuns; n++ {
 		cfg := aggRun{run: n + 1, via: "direct"}
-		if n >= *runs+*engRuns+*cancelRuns {
+		if n >= *runs+*engRuns+*cancelRuns+*stressRuns {
+			cfg.via = "provfail"
+		} else if n >= *runs+*engRuns+*cancelRuns {
 			cfg.via = "direct"
 		} else if n >= *runs+*engRuns {
 			cfg.via = "cancel"
@@ -646,7 +705,7 @@ func aggMain(args []string) {
 				}
 			}
 		}
-		if n >= *runs+*engRuns+*cancelRuns {
+		if n >= *runs+*engRuns+*cancelRuns && cfg.via == "direct" {
 			cfg.mode, cfg.kind, cfg.k, cfg.q = "dropstress", "jsonlines", 8, 1+r.Intn(2)
 			cfg.per = nil
 			for g := 0; g < cfg.k; g++ {
@@ -663,12 +722,13 @@ func aggMain(args []string) {
 				cfg.q = total + 1
 			}
 		}
-		if cfg.via == "cancel" {
+		if cfg.via == "cancel" || cfg.via == "provfail" {
 			// a blocking Report after the aggregator has returned must find room (default queue: 256 K)
 			if cfg.kind == "phout" {
 				cfg.q = 4096
 			}
 			cfg.delayUs = 200 + r.Intn(6000)
+			cfg.failAfter = 1 + r.Intn(150)
 		}
 		cfgs = append(cfgs, cfg)
 	}
